@@ -2238,7 +2238,6 @@ func c04FoldDirection(info *types.Info, body *ast.BlockStmt) string {
 	return out
 }
 
-
 // c04PassesOwnLeft: one of the call's arguments is the variable that holds the level's own left operand
 // (the variable assigned from the function's first operand parse).
 func c04PassesOwnLeft(info *types.Info, fd *ast.FuncDecl, c *ast.CallExpr, isParseSig func(*types.Func) bool) bool {
